@@ -30,6 +30,21 @@ def cases(rng, tier):
                     DESCS[c] = p
                     out.append(c)
                 k += 1
+    # option data of every length around the powers of two and the sizes a writer might stage in a buffer (a padding option,
+    # RFC 7830, is as long as the sender likes), alone and behind a cookie, with and without another additional record
+    lens = sorted(set(list(range(0, 20)) + [v + d for v in (255, 256, 508, 512, 1016, 1020, 1024, 1028, 2048, 4096, 8192, 16384, 32768) for d in range(-4, 5)] + [65000, 65523]))
+    for j, L in enumerate(lens):
+        data = bytes((i * 13 + 1) & 0xFF for i in range(L))
+        for codes in ([(12, data)], [(10, b"\x01\x02\x03\x04\x05\x06\x07\x08"), (12, data)]):
+            if sum(4 + len(d) for _, d in codes) > 65535:
+                continue
+            p = {"id": j, "opcode": 0, "rcode": 16 if j % 2 else 0, "flags": 0x8000, "opt": {"udp": 1232, "version": 0, "codes": codes},
+                 "qs": [], "ans": [], "nss": [], "adds": [] if j % 3 else [{"name": [b"a"], "class": 1, "ttl": 1, "cf": False, "rdata": ("T", "A", [("I", 7)])}]}
+            t = dns.pkt_text(p)
+            for m in ("P", "C"):
+                c = "RT %s %s" % (m, t)
+                DESCS[c] = p
+                out.append(c)
     # parse side: OPT anywhere in the additional section, any extended code
     n = 600 if tier == "quick" else 6000
     for j in range(n):
